@@ -1,8 +1,9 @@
-use std::collections::HashMap;
+use std::collections::{HashMap, HashSet};
 
 use crate::{
     ast::{
-        BinaryOperator, Choice, Condition, DynamicStringPart, Expression, Flow, Node, ParsedStory,
+        BinaryOperator, Choice, Condition, DynamicStringPart, Expression, Flow, ListDeclaration,
+        Node, ParsedStory,
     },
     error::CompilerError,
     inline::parse_dynamic_string,
@@ -114,30 +115,86 @@ fn resolve_expression(expression: &mut Expression, consts: &HashMap<String, Expr
 }
 
 /// The value of a constant (sub)expression, as far as the check of initial values
-/// needs it: numbers (a boolean counts as 0 or 1 in arithmetic) and strings, of
-/// which only the type matters.
+/// needs it: numbers (a boolean counts as 0 or 1 in arithmetic), strings, of which
+/// only the type matters, and list and divert target values, which are constants
+/// but not operands.
 #[derive(Clone, Copy)]
 enum Folded {
     Int(i32),
     Float(f32),
     Str,
+    List,
+    DivertTarget,
+}
+
+/// What the names in the initial value of a global variable can refer to.
+struct GlobalNames<'a> {
+    /// The variables declared above the one being checked, with their values.
+    declared_above: HashMap<&'a str, Folded>,
+    all_globals: HashSet<&'a str>,
+    consts: &'a HashMap<String, Expression>,
+    lists: &'a [ListDeclaration],
+}
+
+impl GlobalNames<'_> {
+    fn is_list_item(&self, name: &str) -> bool {
+        match name.split_once('.') {
+            Some((list_name, item_name)) => self.lists.iter().any(|list| {
+                list.name == list_name && list.items.iter().any(|(item, _, _)| item == item_name)
+            }),
+            None => self
+                .lists
+                .iter()
+                .any(|list| list.items.iter().any(|(item, _, _)| item == name)),
+        }
+    }
+
+    fn lookup(&self, name: &str) -> Result<Folded, String> {
+        if let Some(value) = self.declared_above.get(name) {
+            return Ok(*value);
+        }
+        if self.all_globals.contains(name) {
+            // (its `VAR=` has not run yet when this value is computed)
+            return Err(format!(
+                "'{name}' has no value yet: a variable can only be initialised from \
+                 variables declared above it"
+            ));
+        }
+        if self.lists.iter().any(|list| list.name == name) {
+            return Ok(Folded::List);
+        }
+        // (a name with a dot is compiled as a read count, a list item included)
+        if !name.contains('.') && self.is_list_item(name) {
+            return Ok(Folded::List);
+        }
+        if self.consts.contains_key(name) {
+            return Err(format!(
+                "'{name}' is a constant defined by another constant, which is not resolved"
+            ));
+        }
+        Err(format!(
+            "'{name}' is not a constant, a list item or a variable declared above \
+             (read counts have no place in an initial value)"
+        ))
+    }
 }
 
 /// The initial values of the global variables are evaluated when the story is
 /// created, so a value that cannot be evaluated makes a story that cannot even be
 /// loaded. What can be seen to fail in the constant parts of the expression is
-/// rejected here: a division or remainder by zero (a float one gives an infinity
-/// or NaN, which a story cannot hold either), an integer division that overflows,
-/// and an operator that no string can be an operand of (`-`, `*`, `/`, `%`, `<`, `>`,
-/// `<=`, `>=`, `not`, and `&&`, `||` with another literal) applied to a string literal. Only
-/// literals combined with `+ - * / %` and unary minus are folded, the way the runtime
-/// evaluates them; what refers to other variables or calls functions is left to the
-/// runtime.
+/// rejected here, where the line is at hand: a division or remainder by zero (a
+/// float one gives an infinity or NaN, which a story cannot hold either), an
+/// integer division that overflows, and an operator that no string can be an operand
+/// of (`-`, `*`, `/`, `%`, `<`, `>`, `<=`, `>=`, `not`, and `&&`, `||` with another
+/// literal) applied to a string literal. Literals combined with `+ - * / %`, unary
+/// minus and `not` are folded the way the runtime evaluates them. (What the names
+/// in the value stand for is known when the whole story has been read, see
+/// `check_global_initial_values`.)
 pub(crate) fn check_initial_value(
     name: &str,
     expression: &Expression,
 ) -> Result<(), CompilerError> {
-    match fold(expression) {
+    match fold(expression, None) {
         Ok(_) => Ok(()),
         Err(problem) => Err(CompilerError::invalid_source(format!(
             "the initial value of '{name}' cannot be evaluated: {problem}"
@@ -145,7 +202,57 @@ pub(crate) fn check_initial_value(
     }
 }
 
-fn fold(expression: &Expression) -> Result<Option<Folded>, String> {
+/// The initial value of a global variable has to be a constant, as in the reference
+/// compiler: a number, a boolean, a string without logic in it, a divert target, a
+/// list value (`()`, `(a, b)`, a list item, a list), a CONST, or a variable declared
+/// above, which has its value by then; of these, numbers and strings may be combined
+/// with `+ - * / %`, unary minus and `not` if the result can be computed here.
+/// Anything else is evaluated by the runtime while it creates the story, where a
+/// name that is not declared (yet), a function that returns nothing or was given
+/// the wrong arguments, or an operator that does not fit the value of another
+/// variable leave a story that cannot be loaded, or one that starts with silently
+/// wrong values.
+pub(crate) fn check_global_initial_values(story: &ParsedStory) -> Result<(), CompilerError> {
+    let mut names = GlobalNames {
+        declared_above: HashMap::new(),
+        all_globals: story
+            .globals
+            .iter()
+            .map(|global| global.name.as_str())
+            .collect(),
+        consts: &story.consts,
+        lists: &story.list_declarations,
+    };
+
+    for global in &story.globals {
+        match fold(&global.initial_value, Some(&names)) {
+            Ok(Some(value)) => {
+                names.declared_above.insert(&global.name, value);
+            }
+            outcome => {
+                let problem = outcome
+                    .err()
+                    .unwrap_or_else(|| "its value cannot be computed here".to_owned());
+                let mut error = CompilerError::invalid_source(format!(
+                    "the initial value of '{}' has to be a constant: {problem}",
+                    global.name
+                ))
+                .with_line(global.line);
+                if let Some(file) = &global.file {
+                    error = error.with_file(file.clone());
+                }
+                return Err(error);
+            }
+        }
+    }
+
+    Ok(())
+}
+
+/// Folds a constant expression. Without `names` (while a declaration is parsed),
+/// what is not a literal has an unknown value (`None`) and only what can be seen to
+/// fail is an error; with them, everything is a constant or an error.
+fn fold(expression: &Expression, names: Option<&GlobalNames>) -> Result<Option<Folded>, String> {
     match expression {
         Expression::Bool(value) => Ok(Some(Folded::Int(i32::from(*value)))),
         Expression::Int(value) => Ok(Some(Folded::Int(*value))),
@@ -154,26 +261,54 @@ fn fold(expression: &Expression) -> Result<Option<Folded>, String> {
             // The expressions printed inside the string are evaluated with it.
             if let Ok(dynamic) = parse_dynamic_string(text) {
                 for part in &dynamic.parts {
-                    if let DynamicStringPart::Expression(inner) = part {
-                        fold(inner)?;
+                    match part {
+                        DynamicStringPart::Text(_) => {}
+                        _ if names.is_some() => {
+                            return Err("a constant string cannot contain any logic".to_owned());
+                        }
+                        DynamicStringPart::Expression(inner) => {
+                            fold(inner, None)?;
+                        }
+                        DynamicStringPart::Sequence(_) => {}
                     }
                 }
             }
             Ok(Some(Folded::Str))
         }
-        Expression::Negate(inner) => match fold(inner)? {
+        Expression::Variable(name) => match names {
+            Some(names) => names.lookup(name).map(Some),
+            None => Ok(None),
+        },
+        Expression::DivertTarget(_) => Ok(Some(Folded::DivertTarget)),
+        Expression::EmptyList => Ok(Some(Folded::List)),
+        Expression::ListItems(items) => {
+            if let Some(names) = names
+                && let Some(unknown) = items.iter().find(|item| !names.is_list_item(item))
+            {
+                return Err(format!("'{unknown}' is not an item of a list"));
+            }
+            Ok(Some(Folded::List))
+        }
+        Expression::Negate(inner) => match fold(inner, names)? {
             Some(Folded::Int(value)) => Ok(Some(Folded::Int(value.wrapping_neg()))),
             Some(Folded::Float(value)) => Ok(Some(Folded::Float(-value))),
             Some(Folded::Str) => Err("'-' cannot be applied to a string".to_owned()),
+            Some(Folded::List | Folded::DivertTarget) => not_an_operand(names),
             None => Ok(None),
         },
-        Expression::Not(inner) => match fold(inner)? {
+        Expression::Not(inner) => match fold(inner, names)? {
+            Some(Folded::Int(value)) => Ok(Some(Folded::Int(i32::from(value == 0)))),
+            Some(Folded::Float(value)) => Ok(Some(Folded::Int(i32::from(value == 0.0)))),
             Some(Folded::Str) => Err("'not' cannot be applied to a string".to_owned()),
-            _ => Ok(None),
+            Some(Folded::List | Folded::DivertTarget) => not_an_operand(names),
+            None => Ok(None),
         },
-        Expression::FunctionCall { args, .. } => {
+        Expression::FunctionCall { name, args } => {
+            if names.is_some() {
+                return Err(format!("the call of '{name}' is not a constant"));
+            }
             for argument in args {
-                fold(argument)?;
+                fold(argument, None)?;
             }
             Ok(None)
         }
@@ -183,8 +318,8 @@ fn fold(expression: &Expression) -> Result<Option<Folded>, String> {
             right,
         } => {
             // (both operands are always evaluated, also those of `&&` and `||`)
-            let left = fold(left)?;
-            let right = fold(right)?;
+            let left = fold(left, names)?;
+            let right = fold(right, names)?;
             // Whatever the other operand is, these operators fail on a string.
             let never_on_a_string = match operator {
                 BinaryOperator::Subtract => Some("-"),
@@ -203,14 +338,26 @@ fn fold(expression: &Expression) -> Result<Option<Folded>, String> {
                 return Err(format!("'{symbol}' cannot be applied to a string"));
             }
             match (left, right) {
-                (Some(left), Some(right)) => fold_binary(left, *operator, right),
+                (Some(Folded::List | Folded::DivertTarget), _)
+                | (_, Some(Folded::List | Folded::DivertTarget)) => not_an_operand(names),
+                (Some(left), Some(right)) => match fold_binary(left, *operator, right)? {
+                    None if names.is_some() => Err(
+                        "only '+', '-', '*', '/' and '%' can be computed in a constant".to_owned(),
+                    ),
+                    folded => Ok(folded),
+                },
                 _ => Ok(None),
             }
         }
-        Expression::Variable(_)
-        | Expression::DivertTarget(_)
-        | Expression::ListItems(_)
-        | Expression::EmptyList => Ok(None),
+    }
+}
+
+/// A list or a divert target as the operand of an operator: the runtime may be
+/// able to compute that, a constant it is not.
+fn not_an_operand(names: Option<&GlobalNames>) -> Result<Option<Folded>, String> {
+    match names {
+        Some(_) => Err("operators on list values and divert targets are not constants".to_owned()),
+        None => Ok(None),
     }
 }
 
@@ -258,7 +405,9 @@ fn fold_binary(
             let as_float = |value| match value {
                 Folded::Int(value) => value as f32,
                 Folded::Float(value) => value,
-                Folded::Str => unreachable!("strings are handled above"),
+                Folded::Str | Folded::List | Folded::DivertTarget => {
+                    unreachable!("only numbers are left")
+                }
             };
             let (left, right) = (as_float(left), as_float(right));
             Folded::Float(match operator {
